@@ -4,7 +4,7 @@ from prop_common import *
 import ms_cases, msref, refserver
 
 RULE = ("every public operation × names/contents over an alphabet of hostile pieces (double quote, backslash, CR, LF, NUL, braces, {n} and "
-        "{n+} look-alikes, multi-byte characters, the empty string, ' ACTIVE', 'OK') × sizes (short, and 255…70000 octets around the usual limits with a quote or backslash at either end); the bytes given to sendall are decoded by the "
+        "{n+} look-alikes, multi-byte characters, the empty string, ' ACTIVE', 'OK', names equal to the literal / quoted encoding of bodies sent by other calls of the same process) × sizes (short, and 255…70000 octets around the usual limits with a quote or backslash at either end); the bytes given to sendall are decoded by the "
         "strict RFC 5804 server-side decoder and must be exactly one command of the intended verb whose arguments equal the caller's "
         "values; also compared with the Lean model's bytes; non-trivial = value containing at least one special piece")
 
@@ -15,6 +15,11 @@ VERBS = {"havespace": "HAVESPACE", "putscript": "PUTSCRIPT", "deletescript": "DE
 
 def values(r, n):
     out = ["", "plain", '"', "\\", '\\"', "{5}", "{5+}", "a\r\nLOGOUT", "nul\0", 'x" "y', "é€😀", " lead", "trail ", "{0}", "\\\\", '""']
+    # values that are the wire encodings of other values (a name equal to the literal / quoted form of a body used elsewhere
+    # in the same process): encodings must not be confused with the things they encode, whatever was sent before
+    for v in ["", "abc", "keep;\r\n", 'a"b', "é"]:
+        out += ["{%d+}\r\n%s" % (len(v.encode("utf-8")), v), "{%d}\r\n%s" % (len(v.encode("utf-8")), v), '"%s"' % v.replace("\\", "\\\\").replace('"', '\\"'), v]
+    n += 20
     # long values around the usual size limits, with a character that needs escaping at either end
     for L in [255, 256, 1022, 1023, 1024, 1025, 1026, 2048, 4095, 4097, 8192, 65535, 70000]:
         out += ["x" * (L - 1) + r.choice(['"', "\\"]), r.choice(['"', "\\"]) + "y" * (L - 1), "z" * L]
